@@ -235,7 +235,8 @@ def check_schema(c, it, tr, decisions, src, expected_events, label, method="visi
     outs = out if isinstance(out, list) else [out]
     bad = instantiate_and_compile(outs)
     c.prove(f"{label}/output-compiles", bad is None, note=str(bad), only=["C01"])
-    mangled = [x.id for o in outs for cd in ast.walk(o) if isinstance(cd, ast.ClassDef) for x in ast.walk(cd)
+    # (the BODY of a class: its bases, keywords and decorators are compiled in the enclosing scope and are not mangled with its name)
+    mangled = [x.id for o in outs for cd in ast.walk(o) if isinstance(cd, ast.ClassDef) for st_ in cd.body for x in ast.walk(st_)
                if isinstance(x, ast.Name) and x.id.startswith("__ptera_")]
     c.prove(f"{label}/no-private-ptera-name-inside-a-class-body(name mangling)", not mangled, note=str(mangled), only=["C01"])
     erased, problems = PE.erase(outs, free_vars=free)
@@ -661,6 +662,9 @@ PASS_SCHEMAS = [
     ("nested-def", "def g(a, b=__E1):\n    x = 1\n    return x", []),
     ("nested-class", "class A(__E1):\n    def m(self):\n        return 1", []),
     ("nested-class-body", "class A:\n    v = __E1\n    def m(self):\n        w = 1", []),
+    # the bases, the keywords and the decorators of a nested class are evaluated in THIS function: an assignment expression or a yield
+    # there is a binding / a suspension of this function
+    ("nested-class-header", "@__E3\nclass A((b := __E1), metaclass=(m := __E2)):\n    v = 1", [("b", None, None, "__VE1", True), ("m", None, None, "__VE2", True)]),
     # (global / nonlocal statements are hoisted by the function-level visitor and replaced by `pass` where they stood: see the
     # function schemas global-at-top-level, nonlocal-closure and *-declared-in-a-nested-block)
     ("expr", "__E1", []),
@@ -835,8 +839,12 @@ def u_visit_functiondef(c):
     # of the capture set, whether the function reads it, only rebinds it (`nonlocal n; n += x`) or does neither
     for fv in free:
         if dec.get((fv, None)):
-            rep = [e for e in evs if e.name == fv and e.sig()[4] is False]
-            c.prove(f"{label}/closure-variable-reported-on-entry-as-not-overridable", len(rep) == 1, note=f"{fv}: {len(rep)} reports", only=["C04"])
+            rep = [e for e in evs if e.name == fv and e.sig()[3] == PE.dump(ast.Name(id=fv, ctx=ast.Load())) and e.sig()[4] is False]
+            c.prove(f"{label}/closure-variable-reported-on-entry-as-not-overridable", len(rep) >= 1 and evs.index(rep[0]) <= 2, note=f"{fv}: {len(rep)} reports", only=["C04"])
+            # ... and no binding of it inside the function is overridable either (`nonlocal fv; fv = E`): an override that declines on
+            # entry and accepts at the assignment would otherwise rebind the enclosing function's variable without any report
+            soft = [e.sig() for e in evs if e.name == fv and e.sig()[4] is not False]
+            c.prove(f"{label}/no-binding-of-a-closure-variable-is-overridable", soft == [], note=str(soft), only=["C04"])
     # ---- C06: a #value event on every normal completion
     last = body[-1] if body else None
     completes = not isinstance(last, (ast.Return, ast.Raise))
@@ -1061,9 +1069,16 @@ class _Vault:
         return k // 2
 
     def private_names(self, v, __k=3):
-        w = self.__v + self.__half(v) + __k
+        from os import path as __p
+        w = self.__v + self.__half(v) + __k + len(__p.sep)
         self.__last = w
         return w, sorted(vars(self))
+
+    def nested_reader(self):
+        def reader(d):
+            r = self.__v + d
+            return r
+        return reader
 
 def matcher(p):
     match p:
@@ -1152,7 +1167,7 @@ def u_transform_orchestration(c):
         spec = importlib.util.spec_from_file_location(os.path.basename(p)[:-3], p)
         mod = importlib.util.module_from_spec(spec)
         spec.loader.exec_module(mod)
-        which = c.choose(16, "function")
+        which = c.choose(17, "function")
         if which >= 14:
             which -= 3  # (the objects that cannot be instrumented are 11-13 below)
         elif which >= 11:
@@ -1166,16 +1181,17 @@ def u_transform_orchestration(c):
             return
         inc, get = mod.siblings()
         fn = [mod.plain, mod.outer(5), mod.gen, mod.annotated, mod.K.method, mod.outer2(3), mod.with_defaults, mod.factory(), get,
-              mod.Texts.indented, mod.Texts.column_zero, mod._Vault.private_names, mod.matcher][which]
+              mod.Texts.indented, mod.Texts.column_zero, mod._Vault.private_names, mod.matcher, mod._Vault().nested_reader()][which]
         label = ["plain", "closure", "generator", "annotated", "method", "closure-with-defaults", "default-expressions", "defaults-from-enclosing-scope",
-                 "closure-rebound-by-sibling", "method-with-multi-line-string", "method-with-text-at-column-zero", "method-with-private-names", "match-statement"][which]
+                 "closure-rebound-by-sibling", "method-with-multi-line-string", "method-with-text-at-column-zero", "method-with-private-names", "match-statement", "closure-in-a-method-with-private-names"][which]
         samples = {"plain": [(1,), (1, 5)], "closure": [(4,)], "generator": [], "annotated": [(3,), (3, 4, 5)], "method": [(None, 2)],
                    "closure-with-defaults": [(1,), (1, 9), (1, 9, 8)], "default-expressions": [(), (7,)], "defaults-from-enclosing-scope": [(), (3,)],
                    "closure-rebound-by-sibling": [()], "method-with-multi-line-string": [(None, 1)], "method-with-text-at-column-zero": [(None, 1)],
                    # (names starting with two underscores are private to the class body they are written in: CPython compiles them as
                    # _Class__name, and so must the rebuilt method)
                    "method-with-private-names": [(mod._Vault(), 4), (mod._Vault(), 4, 1)],
-                   "match-statement": [([1, 2, 3],), ({"k": 1, "z": 2},), ("text",), (5,)]}[label]
+                   "match-statement": [([1, 2, 3],), ({"k": 1, "z": 2},), ("text",), (5,)],
+                   "closure-in-a-method-with-private-names": [(1,)]}[label]
         evals_before = list(mod.EVALS)
         ksamples = {"closure-with-defaults": [{}, {"bias": 1}, {"tag": "q", "bias": 0}], "annotated": [{}, {"flag": True, "extra": 1}]}.get(label, [{}])
 
@@ -1199,7 +1215,7 @@ def u_transform_orchestration(c):
         Element = it.get_global("ptera.selector", "Element")
         first_local = {"plain": "c", "closure": "y", "generator": "i", "annotated": "z", "method": "w", "closure-with-defaults": "z",
                        "default-expressions": "r", "defaults-from-enclosing-scope": "q", "closure-rebound-by-sibling": "v",
-                       "method-with-multi-line-string": "w", "method-with-text-at-column-zero": "w", "method-with-private-names": "w", "match-statement": "rest"}[label]
+                       "method-with-multi-line-string": "w", "method-with-text-at-column-zero": "w", "method-with-private-names": "w", "match-statement": "rest", "closure-in-a-method-with-private-names": "r"}[label]
         to_instrument = True if everything else [it.call(Element, [], dict(name=first_local, capture=first_local))]
         glb = fn.__globals__
         before_name = glb.get(fn.__name__, "<<missing>>")
@@ -1270,6 +1286,12 @@ def u_transform_orchestration(c):
         tok2 = getattr(new2, "__ptera_token__", None) if st2 == "ok" else None
         c.prove(f"{label}/function-made-by-the-same-definition-gets-a-token-of-its-own", st2 == "ok" and isinstance(tok2, str) and tok2 != tok
                 and glb.get(tok2) is new2 and glb.get(tok) is new, note=f"{tok!r} / {tok2!r}", only=["C03", "C13", "C14", "C05"])
+        # the reference of a function resolves through its code object: no other function object that shares the rebuilt code (the
+        # template a closure is rebuilt from) may be taken for it -- it is marked as not being a function of the program
+        import gc as _gc
+
+        others = [o for o in _gc.get_referrers(new.__code__) if isinstance(o, type(new)) and o is not new and not getattr(o, "__ptera_discard__", False)]
+        c.prove(f"{label}/no-second-function-object-answers-for-the-rebuilt-code", others == [], note=str(others), only=["C14"])
         info = getattr(new, "__ptera_info__", None)
         c.prove(f"{label}/info-table-present", isinstance(info, dict))
         if isinstance(info, dict):
